@@ -20,7 +20,7 @@ P = {
  'C09': ('Theorems about insert_impl / Mapping::merge and constant keys, end to end at any nesting depth through the C02 refinement, and for constants delivered by references through the inline-twin theorem (coq/Props/C09.v) + differential run with Spec/DeepMerge.v as oracle.', 'local laws of insert_impl + deep-merge specification + correspondence'),
  'C10': ('Theorems about override keys in insert_impl / Mapping::merge, end to end at any nesting depth through the C02 refinement, and for overrides delivered inside referenced mappings through the inline-twin theorem (coq/Props/C10.v) + differential run with Spec/DeepMerge.v as oracle.', 'local laws of insert_impl + deep-merge specification + correspondence'),
  'C11': ('No-panic and always-returns theorems for the modelled pipeline from the YAML AST on (coq/Props/C11.v: render_node yields one value or error from some fuels on for every include graph and reference graph; every todo!/unreachable!/unwrap/panic! site on a modelled path is an outcome of the model) + crash-freedom streams (AST fuzz, byte-level files, deep inputs, file-system faults) with panic capture and process-death attribution. PARTIAL: byte-level YAML parsing, file-system faults and stack exhaustion live in libraries/runtime and are covered by the correspondence run only.', 'panic sites as outcomes + unreachability lemmas + crash-freedom runs'),
- 'C12': ('Theorems that inventory aggregation is invariant under every permutation of worker results and that each entry is the single-node render (coq/Props/C12.v) + renders under rayon pools of 1..16 threads, repeated and shuffled. PARTIAL: absence of shared mutable state across threads is a runtime fact covered by the differential runs and a static audit only.', 'permutation invariance + multi-pool differential runs'),
+ 'C12': ('Theorems that inventory aggregation is invariant under every permutation of worker results and that each entry is the single-node render (coq/Props/C12.v) + renders under rayon pools of 1..16 threads, repeated and shuffled, call sequences on one instance, and one instance used from two threads at once. PARTIAL: absence of shared mutable state across threads is a runtime fact covered by the differential runs and a static audit only.', 'permutation invariance + multi-pool differential runs'),
  'C13': ('Theorems about the aggregation loop of the model (indexes are the sorted exact inverse; fails iff a node fails; coq/Props/C13.v) + differential run through the index accessor hook with an inverse-index oracle on the implementation output.', 'loop invariant by induction over the result list + correspondence'),
  'C14': ('Theorems about name derivation (the naming rule for every directory path, stem and YAML extension; other files ignored) and duplicate detection (coq/Props/C14.v) + random directory trees compared with the model and with a Python reading of the naming rule. PARTIAL: walkdir / symlink following / std::path are the trusted bridge from a real directory to the entry list.', 'functional specification + induction over the entry list + correspondence'),
  'C15': ('Theorems about abs_class_name (coq/Props/C15.v) + exhaustive small-scope comparison through the hook + relative/absolute twin inventories.', 'structural lemmas on dot counting + exhaustive correspondence + twins'),
